@@ -35,6 +35,7 @@ const (
 	prMultiEvictOneCall
 	prWidePair
 	prScatter
+	prPreParsed
 	nRProbes
 )
 
@@ -43,7 +44,7 @@ var rProbeNames = []string{"overflow_eviction", "timeout_eviction", "complete_ev
 	"eoe_completed_buffered_event", "close_flushed_events", "maintain_flushed_events", "push_after_close",
 	"overflow_eviction_of_incomplete_head", "window_edge_offset_used", "call_at_exact_expiry_instant",
 	"late_arrival_after_eviction", "several_evictions_in_one_call", "two_sequence_numbers_more_than_2^24_apart",
-	"history_dealt_onto_3_to_5_far_apart_sequence_clusters"}
+	"history_dealt_onto_3_to_5_far_apart_sequence_clusters", "message_parsed_before_the_first_call_pushed_later"}
 
 // callback records of one call
 type rGroup struct {
@@ -223,6 +224,16 @@ func ExecRPlan(p *RPlan, trace bool) *core.Result {
 		return hd
 	}
 
+	// message objects parsed ahead of time (before the first call)
+	pre := make([]*auparse.AuditMessage, len(p.Ops))
+	for i, op := range p.Ops {
+		if op.K == opPushMsg && op.Pre {
+			if m, err := auparse.Parse(auparse.AuditMessageType(op.Typ), fmt.Sprintf("audit(%d.%03d:%d): id=%d", 1500000000+i, i%1000, seqOf(op.Off), i)); err == nil {
+				pre[i] = m
+				res.Probes[prPreParsed]++
+			}
+		}
+	}
 	for i, op := range p.Ops {
 		now := int64(time.Since(start))
 		cbs = cbs[:0]
@@ -238,6 +249,9 @@ func ExecRPlan(p *RPlan, trace bool) *core.Result {
 			switch op.K {
 			case opPushMsg:
 				m := &auparse.AuditMessage{RecordType: auparse.AuditMessageType(op.Typ), Sequence: seqOf(op.Off), RawData: "id=" + strconv.Itoa(i)}
+				if pre[i] != nil {
+					m = pre[i]
+				}
 				st.msgs[i] = m
 				ra.PushMessage(m)
 				isPush = true
@@ -254,7 +268,13 @@ func ExecRPlan(p *RPlan, trace bool) *core.Result {
 			case opPushNil:
 				ra.PushMessage(nil)
 			case opPushBad:
-				bad := []string{"", "audit(", "audit(1.2:x): id=1", "garbage", "audit(1.000:99999999999): id=2", "audit(1:2) id=3"}[i%6]
+				// unparsable records: fixed garbage, and records of this very stream
+				// (its sequence numbers, a fresh id) with one part of the header damaged
+				sq := seqOf(op.Off)
+				bad := []string{"", "audit(", "audit(1.2:x): id=1", "garbage", "audit(1.000:99999999999): id=2", "audit(1:2) id=3",
+					fmt.Sprintf("audit(1x5.000:%d): id=%d", sq, i), fmt.Sprintf("audit(1500000000.0y0:%d): id=%d", sq, i),
+					fmt.Sprintf("audit(1500000000.000:%d: id=%d", sq, i), fmt.Sprintf("audit(1500000000.000:%dz): id=%d", sq, i),
+					fmt.Sprintf("node=host(1) audit(1500000000.000:%d): id=%d", sq, i)}[int(op.Typ)%nBadRaw]
 				callErr = ra.Push(auparse.AuditMessageType(tSYSCALL), []byte(bad))
 				if callErr == nil {
 					viol("C01", "bad-push-accepted", "push", "Push(%q) returned nil", bad)
